@@ -17,9 +17,10 @@ DRIVERS = [
     ("utf8_driver", "ExtractUtf8.v", "utf8_model.ml", "utf8_driver.ml"),
     ("forwarder_driver", "ExtractForwarder.v", "forwarder_model.ml", "forwarder_driver.ml"),
     ("pool_driver", "ExtractPool.v", "pool_model.ml", "pool_driver.ml"),
+    ("mcc_driver", "ExtractMcc.v", "mcc_model.ml", "mcc_driver.ml"),
     ("observer_driver", "ExtractObserver.v", "observer_model.ml", "observer_driver.ml"),
 ]
-GO_PKGS = ["proxy", "encryption", "interceptor", "collect", "proto/compat"]
+GO_PKGS = ["proxy", "encryption", "interceptor", "collect", "proto/compat", "transport/mux"]
 
 
 def main():
